@@ -150,11 +150,17 @@ def build(case):
         from ptera.selector import SelectorError
         from pv.refinst import load_source
 
+        probed = PROBED[pick(a[2 * nslots + 1], len(PROBED))]
+        special = probed.startswith("#") or probed == "xml"
         slots = []
         for j in range(nslots):
             fi = pick(a[2 * j], len(FORMS))
             if j == 0 and f0 is not None:
                 assume(fi == f0)
+            if special and j >= 1:
+                assume(fi == 0)  # meta-variables / the dotted-import name do not depend on the other slots
+            if special and j == 0 and probed == "xml":
+                assume(FORMS[fi][1] == "import xml.dom")
             if fi == 0:
                 assume(a[2 * j + 1] == 0)
                 ni = 0
@@ -167,12 +173,8 @@ def build(case):
         if small:
             assume(rsel in (0, len(NAMES)))  # quick tier: extra read of `p` or none
         reader = None if rsel == len(NAMES) else rsel
-        probed = PROBED[pick(a[2 * nslots + 1], len(PROBED))]
-        if probed.startswith("#") or probed == "xml":
-            # meta-variables / the dotted-import name do not depend on the other slots: one representative
-            assume(all(fi == 0 for fi, _ in slots[1:]) and reader is None)
-            if probed == "xml":
-                assume(FORMS[slots[0][0]][1] == "import xml.dom")
+        if special:
+            assume(reader is None)
         with NoTracing():
             src = gen(slots, reader)
             try:
